@@ -135,6 +135,9 @@ def elems_bounded(st, T, fld, B, depth=0):
         return prove_bound(st, ("el", T, fld), B)
     if op == "concat":
         return all(elems_bounded(st, p, fld, B, depth + 1) for p in T[1:])
+    if op == "sel":
+        # a sub-list: every element is an element of the list
+        return elems_bounded(st, T[1], fld, B, depth + 1)
     if op in ("lmap", "single"):
         body = lax_model.thaw(T[2] if op == "lmap" else T[1])
         if isinstance(body, VRec) and fld in body.f and isinstance(body.f[fld], VSeq):
